@@ -242,6 +242,8 @@ class SimWorld(World):
                 self.jobspec[j["name"]] = j
         self.stats_served = {}
         self.stat_patterns = {}
+        self.stat_procs = {}      # component simulations: pid -> name of a registered process
+        self.stat_children = {}   # pid -> child pids
         self.props = set(props)
         self.user_cmds = []
         self.user_script = list(scenario.get("user", []))
@@ -460,6 +462,19 @@ class SimWorld(World):
         return {"rc": real_rc, "argv": args, "env": {k: envd.get(k) for k in ("JADE_RUNTIME_OUTPUT", "JADE_JOB_NAME")}}
 
     # ------------------------------------------------------------------ stats (C20)
+    def stat_proc_name(self, vp, pid):
+        """Name under which the samples of process `pid` are recorded, None if there is no such
+        live process on the caller's node."""
+        if pid in self.stat_procs:
+            return self.stat_procs[pid]
+        x = vp
+        while x is not None:
+            for job in self.shell.live_jobs.get(x.id, []):
+                if job.pid == pid and not job.done and not job.killed:
+                    return job.name
+            x = x.parent
+        return None
+
     def stat_sample(self, vp, group, name):
         key = (vp.id, group, name)
         lst = self.stats_served.setdefault(key, [])
@@ -479,6 +494,8 @@ class SimWorld(World):
             v = base
         elif pat == "zero":
             v = 0.0
+        elif pat == "spiky":
+            v = [0.0, base, 2 * base, 0.0, base / 2][hash_int(f"{self.ch.seed}/{key}/{i}/s") % 5]
         else:
             v = h
         lst.append(v)
